@@ -113,7 +113,7 @@ def probe(rec: dict, base: Path, loaders_cache: dict) -> list[tuple[str, dict]]:
                 clause = "served-outside-or-wrong-file" if got["kind"] == "ok" else ("missed" if want["kind"] == "ok" else "not-a-TemplateNotFoundError")
                 shape = ("absolute" if rec["name"].startswith(("/", "@ROOT@")) else "relative") + \
                         (",parent" if ".." in rec["name"].split("/") else "") + \
-                        (",empty" if rec["name"] in ("", "/", "@ROOT@/") else "")
+                        (",empty" if rec["name"] in ("", "/", "@ROOT@/", "/@ROOT@/", "//@ROOT@/") else "")
                 fails.append((f"{clause}:{lname}:{aname}:{shape}:{got['kind']}", {"name": name, "want": want, "got": got, "rec": rec}))
     os.chdir(home_cwd)
     return fails
